@@ -43,6 +43,8 @@ def run(ctx):
     ctx.do(rule_no_hidden_state, "C16.history-independence")
     from .pitfalls import rule_loops_not_cut_short
     ctx.do(rule_loops_not_cut_short, "C16.loops-complete")
+    from .pitfalls import rule_definite_assignment
+    ctx.do(rule_definite_assignment, "C16.definite-assignment")
 
 
 def _value_table(stmts, var):
